@@ -310,7 +310,7 @@ func c18CLI(idx int, rng *rand.Rand) []Case {
 	h2 := rng.Intn(2) == 0
 	out := filepath.Join(scratchDir(), fmt.Sprintf("c18cli%d.bin", idx))
 	defer os.Remove(out)
-	args := []string{"attack", "-rate", "60", "-duration", "500ms", "-output", out, "-timeout", "2s",
+	args := []string{"attack", "-rate", "60", "-duration", "500ms", "-output", out, "-timeout", "15s",
 		fmt.Sprintf("-keepalive=%v", keepalive), fmt.Sprintf("-http2=%v", h2)}
 	for _, r := range repl {
 		args = append(args, "-connect-to", "mapped.invalid:80:"+r)
